@@ -1,6 +1,7 @@
 package core
 
 import (
+	"net"
 	"encoding/hex"
 	"fmt"
 	"sort"
@@ -87,7 +88,7 @@ func dumpVal(sb *strings.Builder, v interface{}, oids oidMap) error {
 }
 
 // DumpState renders the keyspace bookkeeping canonically (maps sorted).
-func DumpState(raw sugardb.VerifRaw) (string, error) {
+func DumpState(raw sugardb.VerifRaw, connID func(*net.Conn) int) (string, error) {
 	var sb strings.Builder
 	idx := make([]int, 0, len(raw.Store))
 	for db, m := range raw.Store {
@@ -153,6 +154,18 @@ func DumpState(raw sugardb.VerifRaw) (string, error) {
 			sb.WriteString(" " + X(k))
 		}
 	}
+	// connection table: id -> selected database (id 0 = the entry keyed by the nil connection)
+	type cd struct{ id, db int }
+	var cs []cd
+	for c, info := range raw.Conns {
+		cs = append(cs, cd{connID(c), info.Database})
+	}
+	sort.Slice(cs, func(i, j int) bool { return cs[i].id < cs[j].id })
+	fmt.Fprintf(&sb, " C %d", len(cs))
+	for _, c := range cs {
+		fmt.Fprintf(&sb, " %d %d", c.id, c.db)
+	}
+	fmt.Fprintf(&sb, " B %d", raw.Embedded.Database)
 	return sb.String(), nil
 }
 
